@@ -169,7 +169,23 @@ func zwinPair(a, b tree.Root) tree.Root {
 // withCfg runs f under a hash configuration.  "sha": the library defaults, wrapped by a
 // recorder that checks every call of the library's own hash against crypto/sha256.
 // "alt": tree.InitZeroHashes(altPair, 64) — the documented pluggability path.
+// curCfg is the hash configuration in force (for the history ops that re-initialise it)
+var curCfg = "sha"
+
+func pairOf(cfg string) tree.HashFn {
+	switch cfg {
+	case "alt":
+		return altPair
+	case "zwin":
+		return zwinPair
+	}
+	return tree.Hash
+}
+
 func withCfg(cfg string, f func(h tree.HashFn)) {
+	prev := curCfg
+	curCfg = cfg
+	defer func() { curCfg = prev }()
 	if cfg == "zwin" {
 		tree.InitZeroHashes(zwinPair, 64)
 		defer tree.InitZeroHashes(tree.Hash, 64)
